@@ -149,6 +149,10 @@ class Ctx:
         self.level = "model_checking"
         self.notes = {}
         self._distinct = set()
+        self._fallback_samples = []
+        self.rule = ("cases are the behaviours / inputs exported by TLC from the specification (or enumerated by the check) and replayed on the implementation; "
+                     "distinct = distinct case keys (input, operation sequence, parameters), counted by hashing the key; non-trivial = flagged by the check "
+                     "(at least one operation applied / more than one outcome / non-zero expected value)")
         try:
             self.known = json.loads(KNOWN.read_text())["findings"]
         except FileNotFoundError:
@@ -166,6 +170,8 @@ class Ctx:
     def case(self, key, nontrivial=True):
         """Count one evaluated case; key identifies distinctness."""
         self.cov["evaluations"] += 1
+        if len(self._fallback_samples) < 4:
+            self._fallback_samples.append(key)
         if nontrivial:
             h = hashlib.sha1(repr(key).encode()).digest()[:8]
             self._distinct.add(h)
@@ -211,7 +217,10 @@ class Ctx:
                 print(f"KNOWN-FINDING: property={self.pid} {k} :: {what} ({n} occurrence(s))")
         for key, what, path in self.violations[:50]:
             print(f"VIOLATION property={self.pid} replay={path} :: {what}")
+        if not self.cov["samples"]:
+            self.cov["samples"] = [{"case_key": k} for k in self._fallback_samples]
         cov = dict(self.cov)
+        cov.setdefault("rule", self.rule)
         cov.update(self.notes)
         cov["known_finding_hits"] = len(self.known_hits)
         ev = {
